@@ -155,7 +155,7 @@ def entitled(sig, a, T, succ, fully, disc_of, newly_of, r, c):
 class GetObservation(GetObservationModel):
     qualname = "nasim.envs.state.State.get_observation"
     verify = True
-    tags = {"": ("C08", "C09", "C12")}
+    tags = {"": ("C08", "C09", "C12", "C13", "C19")}
 
     def variants(self):
         return list(V.KINDS)
@@ -171,8 +171,10 @@ class GetObservation(GetObservationModel):
         f = {"success": SymV(succ, "bool"), "value": SymV(z3.Real("r_value"), "real"),
              "connection_error": SymV(z3.Bool("r_conn"), "bool"), "permission_error": SymV(z3.Bool("r_perm"), "bool"),
              "undefined_error": SymV(z3.Bool("r_undef"), "bool")}
-        for k in ("services", "os", "processes", "access"):
+        for k in ("services", "os", "processes"):
             f[k] = AbsVal(z3.Const("r_" + k, DictSort), "dict")
+        # ActionResult.access: the code stores a scalar access level here (action.access / host.access), or {} by default
+        f["access"] = SymV(z3.Real("r_access"), "real")
         dis = z3.Function("r_disc", I_, B_)
         new = z3.Function("r_newly", I_, B_)
         if variant == "SubnetScan":
@@ -289,7 +291,7 @@ class GetObservationScanLoop(LoopContract):
 class GetInitialObservation(GetObservationModel):
     qualname = "nasim.envs.state.State.get_initial_observation"
     verify = True
-    tags = {"": ("C08", "C09")}
+    tags = {"": ("C08", "C09", "C13", "C19", "C04")}
 
     def setup(self, I, variant):
         sig, T, st, net, a = dyn_setup(I, None)
